@@ -26,7 +26,6 @@ ASSUMPTIONS = [
     "the OS returns span-aligned (64 KiB) mappings to rpmalloc (checked at run time by the harness hook, not proved)",
     "the span caches / reserve bookkeeping never hand a span to a size class while it is still in use elsewhere: this is the model's oracle precondition (ErrOracle), checked on every traced operation, not proved",
     "single thread (the interpreter is single threaded): the deferred free list is always empty",
-    "requests issued by Lua are below 2^64 - SPAN_HEADER_SIZE (lmem.c limits them to MAX_SIZE); beyond that the full statement is refuted (C19_huge_wrap_refuted)",
     "correspondence is differential testing over generated histories, not a proof that model = code",
 ]
 
@@ -95,6 +94,15 @@ def scrape(ctx=None):
     if not m:
         raise RuntimeError("srpmalloc.c: page size upper clamp (max_page_size) not found")
     lines.append("Definition MAX_PAGE_SIZE : Z := 4096 * 1024 * 1024.")
+    # _rpmalloc_allocate_huge: requests whose size + header (rounded up to a page) overflow size_t are refused
+    mh = re.search(r"_rpmalloc_allocate_huge\(heap_t\* heap, size_t size\) \{(.*?)\n\}", src, re.S)
+    if not mh:
+        raise RuntimeError("srpmalloc.c: _rpmalloc_allocate_huge not found")
+    guard = bool(re.search(r"if \(size > \(\(size_t\)-1\) - SPAN_HEADER_SIZE - _memory_page_size\)\s*return 0;\s*size \+= SPAN_HEADER_SIZE;", mh.group(1)))
+    if not guard and not re.search(r"_rpmalloc_heap_cache_adopt_deferred\(heap, 0\);\s*size \+= SPAN_HEADER_SIZE;", mh.group(1)):
+        raise RuntimeError("srpmalloc.c: _rpmalloc_allocate_huge changed shape")
+    lines.append("Definition HUGE_OVERFLOW_GUARD : bool := %s." % ("true" if guard else "false"))
+    got["HUGE_OVERFLOW_GUARD"] = guard
     lua = vlib.repo_read("src/lua/lua.c")
     m = re.search(r"static\s+void\s*\*\s*L_alloc\s*\(.*?\n\}", lua, re.S)
     if not m:
@@ -263,6 +271,15 @@ def targeted_ops(rng, table, K):
                   (pages + 1) * page - hdr, n):
             A(s, t)
         A(s, 0)
+    # (f') one fresh huge block per target: an in-place grow within the last backing page, in particular to a
+    #      size that is an exact multiple of the page size, must leave usable_size >= requested
+    for n in (5000000, K["LARGE_SIZE_LIMIT"] + 1, K["LARGE_SIZE_LIMIT"] + 3 * page + 77):
+        pages = (n + hdr + page - 1) // page
+        for t in (pages * page, pages * page - 1, pages * page - hdr, pages * page - hdr + 1, (pages - 1) * page, (pages + 1) * page, pages * page + page - hdr):
+            s = new_slot()
+            A(s, n)
+            A(s, t)
+            A(s, 0)
     # (g) large-span cache reuse: free an M-span block, then request N spans with 3 <= N < M <= 1.5 N
     #     (served from the M-span cache with span_count M), several times, then finalize (F) and start
     #     a second allocator lifetime doing the same: the map/unmap balance is checked at every F
@@ -355,9 +372,15 @@ def correspond(ctx):
             cov["model_mismatches"] += 1
     evaluations += len(table)
 
-    # ---- known defect replayed every run: size + SPAN_HEADER_SIZE wraps in _rpmalloc_allocate_huge
-    wrap = (1 << 64) - 1
-    rc, out, e = run_harness(exe, "X %x\nX %x\n" % (wrap, (1 << 64) - K["SPAN_HEADER_SIZE"] - 1), trace=False)
+    # ---- requests near SIZE_MAX (formerly: size + SPAN_HEADER_SIZE wrapped in _rpmalloc_allocate_huge; repaired
+    #      in /repo c838ab1): a non-NULL result must be backed by at least the requested bytes, and the
+    #      model's refusal (huge_request = None) must be a NULL in the implementation
+    page = K["page_size"]
+    probes = [(1 << 64) - 1, (1 << 64) - K["SPAN_HEADER_SIZE"], (1 << 64) - K["SPAN_HEADER_SIZE"] - 1,
+              (1 << 64) - 1 - K["SPAN_HEADER_SIZE"] - page + 1, (1 << 64) - 1 - K["SPAN_HEADER_SIZE"] - page, (1 << 63) + 5]
+    rc, out, e = run_harness(exe, "".join("X %x\n" % p for p in probes), trace=False)
+    rc2, mout, me = vlib.sh([driver], input="K page_size_shift %d\n" % K["page_size_shift"] + "".join("Q huge %x\n" % p for p in probes))
+    refused = {l.split()[2] for l in mout.split("\n") if l.startswith("Q huge") and l.endswith("refused")}
     for w in parse_harness(out)[6]:
         req = int(w[1], 16)
         if w[2] == "nonnull":
@@ -366,10 +389,14 @@ def correspond(ctx):
                 ctx.violation("huge-wrap:size=0x%x" % req, "oracle",
                               "L_alloc(NULL,0,0x%x) returns a non-NULL block for which only 0x%x bytes were mapped (< requested): size + SPAN_HEADER_SIZE wraps modulo 2^64 in _rpmalloc_allocate_huge" % (req, mapped),
                               detail={"replay": "echo 'X %x' | %s   (harness/C19/harness.c built against %s/src/srpmalloc/srpmalloc.c)" % (req, exe, vlib.REPO),
-                                      "model": "C19_huge_wrap_refuted"})
+                                      "model": "C19_large_huge_fit (HUGE_OVERFLOW_GUARD)"})
+                cov["oracle_failures"] += 1
+            elif w[1] in refused:
+                ctx.violation("model-mismatch:huge-refusal", "correspondence", "model refuses a request of 0x%x bytes, the implementation serves it" % req, failing_input=False)
         elif w[2] == "crashed":
             ctx.violation("huge-wrap:size=0x%x" % req, "oracle", "L_alloc(NULL,0,0x%x) crashes the allocator (%s)" % (req, w[3]))
-    evaluations += 2
+            cov["oracle_failures"] += 1
+    evaluations += len(probes)
 
     # ---- streams
     streams = []
